@@ -377,7 +377,10 @@ class C18(Check):
                         with lock:
                             failures.append(v)
                     except Inconclusive as e:
-                        s.inconclusive.append(str(e))
+                        # one undecided cell (a timeout on a loaded machine) is counted, not fatal (core.run_check)
+                        s.extra["inconclusive_cases"] = s.extra.get("inconclusive_cases", 0) + 1
+                        if len(s.inconclusive_samples) < 3:
+                            s.inconclusive_samples.append(str(e)[:600])
             finally:
                 ctx.cleanup()
             results[t] = s
